@@ -239,7 +239,7 @@ CATALOGUE.update(
         "Hooks": (Hooks, [lambda: {}, lambda: {"cb": hook_one, "anyv": hook_one, "runner": RUNNER_A, "n": 1}]),
         "SeqS/long": (SeqS, [lambda: {"items": list(range(16))}, lambda: {"items": list(range(17))}, lambda: {"items": list(range(40))}, lambda: {"items": list(range(300))}]),
         "SetS/long": (SetS, [lambda: {"tags": {f"t{i}" for i in range(17)}}, lambda: {"tags": {f"t{i}" for i in range(70)}}]),
-        "MapS/long": (MapS, [lambda: {"m": {f"k{i}": i for i in range(17)}}, lambda: {"m": _proxy({f"k{i}": i for i in range(33)})}]),
+        "MapS/long": (MapS, [lambda: {"m": {f"k{i}": i for i in range(17)}}, lambda: {"m": _proxy({f"k{i}": i for i in range(33)})}, lambda: {"m": {f"k{i}": i for i in range(64)}}, lambda: {"m": {f"k{i}": i for i in range(129)}}]),
         "TupV/long": (TupV, [lambda: {"t": tuple(range(17))}, lambda: {"t": list(range(33))}]),
         "SeqSeq/long": (SeqSeq, [lambda: {"rows": [list(range(17)), [1]]}, lambda: {"rows": [[i] for i in range(17)]}]),
         "MapSeq/long": (MapSeq, [lambda: {"m": {"ab": list(range(20))}}, lambda: {"m": {f"k{i}": [i] for i in range(17)}}]),
@@ -288,9 +288,9 @@ REPLACE.update(
         "GridInt": {"cells": (lambda: [[9]], [["bad"]], 0)},
         "Scalars/neg": {"a": (lambda: -2, "bad", ""), "b": (lambda: "z", 7, 0), "c": (lambda: 0.0, "bad", "")},
         "Hooks": {"cb": (lambda: hook_two, 7, 0), "anyv": (lambda: hook_two, None, None), "runner": (lambda: RUNNER_B, 7, 0)},
-        "SeqS/long": {"items": (lambda: list(range(100, 120)), list(range(19)) + ["bad"], 0)},
+        "SeqS/long": {"items": (lambda: list(range(100, 230)), list(range(64)) + ["bad"], 0)},
         "SetS/long": {"tags": (lambda: {f"z{i}" for i in range(18)}, {f"z{i}" for i in range(18)} | {1}, 0)},
-        "MapS/long": {"m": (lambda: {f"z{i}": i for i in range(18)}, {**{f"z{i}": i for i in range(18)}, "k": "bad"}, 0)},
+        "MapS/long": {"m": (lambda: {f"z{i}": i for i in range(70)}, {**{f"z{i}": i for i in range(70)}, "k": "bad"}, 0)},
         "TupV/long": {"t": (lambda: tuple(range(50, 70)), tuple(range(19)) + ("bad",), 0)},
         "SeqSeq/long": {"rows": (lambda: [list(range(18))], [list(range(18)) + ["bad"]], 0)},
         "MapSeq/long": {"m": (lambda: {"q": list(range(18))}, {"q": list(range(18)) + ["bad"]}, 0)},
